@@ -78,7 +78,7 @@ def run(ctx):
         "samples": [{"regs": m["regs"], "enum": m["enum"], "feeds": m["feeds"][:3]} for m in maps[:: max(1, len(maps) // 2)][:2]] + [{"text": p["text"], "ok": p["ok"], "display": p["display"]} for p in parses[:2]],
         "evaluations": sum(len(m["lookups"]) + len(m["feeds"]) + 2 for m in maps) + len(parses),
         "distinct_nontrivial": len({json.dumps(m["regs"]) for m in maps}) + len({p["text"] for p in parses}),
-        "rule": "every registration history of <= 3 chords (length <= 3) over the key set; per history all lookups over one more key, enumeration, override merge of its two halves, every key sequence of length <= 4 through lookup_state and KeyMapHandler; parser vectors: 36 names x modifier subsets with expected value, all concatenations of <= 3 hostile tokens, seeded non-ASCII strings",
+        "rule": "every registration history of <= 3 chords (length <= 3) over the key set; per history all lookups over one more key, enumeration, override merge of its two halves, every key sequence of length <= 4 through lookup_state and KeyMapHandler; parser vectors: 36 names x modifier subsets with expected value, all concatenations of <= 3 hostile tokens, every printable ASCII character bare / double-quoted / single-quoted alone and under ctrl+ and shift+alt+ as a key and as the second key of a chord, seeded non-ASCII strings",
         "exhaustive": True,
     }
     return lib.finish(ctx, "model_checking", cov,
